@@ -423,12 +423,16 @@ fn limit_cases() -> Vec<LimitCase> {
         // exporting an imported function is a valid Wasm module
         add("export of an imported function", m.encode(), true, true);
     }
-    // data segments
-    for (off, len, ok) in [(65535u32, 1usize, true), (65535, 2, false), (65536, 0, true), (65536, 1, false), (0, 65536, true), (u32::MAX, 1, false)] {
-        let mut m = base_module();
-        m.memory = Some((1, None));
-        m.data = vec![(off, vec![7; len])];
-        add(&format!("data segment offset {off} len {len} in 1 page"), m.encode(), ok, ok);
+    // data segments: the full (offset, length) grid incl. offsets with the top bit set (the offset is an
+    // unsigned address written as an i32 constant) - admitted iff offset + length <= memory size
+    for off in [0u32, 1, 65535, 65536, 65537, 0x7FFF_FFFF, 0x8000_0000, 0xFFFF_0000, 0xFFFF_FFFE, u32::MAX] {
+        for len in [0usize, 1, 2, 65536] {
+            let ok = off as u64 + len as u64 <= 65536;
+            let mut m = base_module();
+            m.memory = Some((1, None));
+            m.data = vec![(off, vec![7; len])];
+            add(&format!("data segment offset {off} len {len} in 1 page"), m.encode(), ok, ok);
+        }
     }
     {
         let mut m = base_module();
@@ -438,12 +442,30 @@ fn limit_cases() -> Vec<LimitCase> {
         m.elems = vec![(0, vec![0])];
         add("element segment without table", m.encode(), false, false);
     }
-    // element segments
-    for (off, fs, ok) in [(1u32, vec![0u32], true), (2, vec![0], false), (2, vec![], true), (0, vec![0, 0], true), (0, vec![1], false), (0, vec![0, 0, 0], false)] {
+    // element segments: the full (offset, entries) grid incl. offsets with the top bit set
+    for off in [0u32, 1, 2, 3, 0x7FFF_FFFF, 0x8000_0000, 0xFFFF_FFFE, u32::MAX] {
+        for fs in [vec![], vec![0u32], vec![0, 0], vec![0, 0, 0]] {
+            let ok = off as u64 + fs.len() as u64 <= 2;
+            let mut m = base_module();
+            m.table = Some((2, None));
+            m.elems = vec![(off, fs.clone())];
+            add(&format!("element segment offset {off} funcs {fs:?} in table of 2"), m.encode(), ok, ok);
+        }
+    }
+    {
         let mut m = base_module();
         m.table = Some((2, None));
-        m.elems = vec![(off, fs.clone())];
-        add(&format!("element segment offset {off} funcs {fs:?} in table of 2"), m.encode(), ok, ok);
+        m.elems = vec![(0, vec![1])];
+        add("element segment with a non-existent function", m.encode(), false, false);
+        // several segments, a later one with a wrapped offset
+        let mut m = base_module();
+        m.table = Some((2, None));
+        m.elems = vec![(0, vec![0]), (u32::MAX, vec![0]), (1, vec![0])];
+        add("element segments [0, -1, 1]", m.encode(), false, false);
+        let mut m = base_module();
+        m.memory = Some((1, None));
+        m.data = vec![(0, vec![1]), (u32::MAX, vec![]), (1, vec![2])];
+        add("data segments [0, -1 (empty), 1]", m.encode(), false, false);
     }
     // function / code section mismatch, type index
     {
